@@ -68,6 +68,16 @@ CLAIMED["C13"] = (
     "Trusted: Lean kernel; standard axioms; harness; astropy separable (modelled, compared every case). Known finding D13 (fix_inputs WCS).",
     "Lean 4 proof (structural induction for separability) + differential correspondence", "DESIGN.md §6 C13")
 
+CLAIMED["C15"] = (
+    "Lean 4 theorems: a label array returns the label of the cell whose pixel area [c-1/2,c+1/2) x [r-1/2,r+1/2) contains the point and an "
+    "indexing error beyond either far edge; when the constructor's overlap test does not fire the ranges are pairwise disjoint (proof about "
+    "the sort-and-compare algorithm), so a key strictly inside a range gets that range's label in any visiting order, end points / outside / "
+    "NaN get no label, overlapping tables are refused; dict keys within tolerance; and RegionsSelector.evaluate (group-by-label, masked "
+    "gather/scatter, outputs initialised to the undefined value) equals the pointwise specification for every batch and labelling; set_input "
+    "lookup. Tied to gwcs/selector.py by exact correspondence and an independent exact oracle; two defects found and fixed (D9, D21).",
+    "Trusted: Lean kernel; standard axioms; harness; numpy fancy indexing and np.isclose semantics (modelled).",
+    "Lean 4 proof over hand-written model + differential correspondence", "DESIGN.md §6 C15")
+
 NOT_YET = "check not built yet in this round; will be claimed once its Lean model, theorems and correspondence run green"
 
 
